@@ -18,6 +18,7 @@ rounded magnitude is >= 2^16) the first three cover every float64 argument.
 import math
 import random
 import struct
+import sys
 from fractions import Fraction
 
 META = {'explanation': 'Complete enumeration of every table entry (decode: all codes; encode: all 65536 binary16 values x overflow '
@@ -359,6 +360,16 @@ def others(tier='quick', seed=0):
         if not ((math.isnan(le) and math.isnan(wantle)) or le == wantle):
             bad = {'inputs': {'code': code, 'le': repr(le)}, 'python': f"FAILS = True  # bfloatle code {code}"}
             break
+        # the explicitly big-endian name is bfloat; the native-endian name is whichever of the two sys.byteorder says
+        b16 = Bits(uint=code, length=16)
+        be, ne = b16.bfloatbe, b16.bfloatne
+        wantne = le if sys.byteorder == 'little' else v
+        same = lambda a, b: (math.isnan(a) and math.isnan(b)) or (a == b and math.copysign(1, a) == math.copysign(1, b))
+        if not same(be, v) or not same(ne, wantne):
+            bad = {'inputs': {'code': code, 'bfloatbe': repr(be), 'bfloatne': repr(ne), 'expected bfloatne': repr(wantne)},
+                   'python': f"import bitstring, sys, math\nb = bitstring.Bits(uint={code}, length=16)\nw = b.bfloatle if sys.byteorder == 'little' else b.bfloat\n"
+                             "FAILS = not ((math.isnan(b.bfloatne) and math.isnan(w)) or b.bfloatne == w) or not ((math.isnan(b.bfloatbe) and math.isnan(b.bfloat)) or b.bfloatbe == b.bfloat)"}
+            break
     samples = [0.0, -0.0, 1.0, 1.00390625, 3.14159, -2.71828, 1e38, 3.4e38, 1e39, -1e39, float('inf'), 1e-40, 5e-324] + \
               [rng.uniform(-1e6, 1e6) for _ in range(2000)] + [rng.uniform(-1, 1) * 10.0 ** rng.randint(-40, 38) for _ in range(2000)]
     for x in samples:
@@ -367,7 +378,8 @@ def others(tier='quick', seed=0):
             wantb = struct.pack('>f', x)[:2]
         except OverflowError:
             wantb = struct.pack('>f', math.inf if x > 0 else -math.inf)[:2]
-        if Bits(bfloat=x).bytes != wantb or Bits(bfloatle=x).bytes != wantb[::-1]:
+        if Bits(bfloat=x).bytes != wantb or Bits(bfloatle=x).bytes != wantb[::-1] or Bits(bfloatbe=x).bytes != wantb \
+                or Bits(bfloatne=x).bytes != (wantb[::-1] if sys.byteorder == 'little' else wantb):
             bad = bad or {'inputs': {'value': repr(x)}, 'python': f"FAILS = True  # bfloat encoding of {x!r}"}
     obs.append(_ob('C11/bitstore_helpers.bfloat2bitstore/truncated-float32/all-codes-and-sampled-floats', bad is None, bad, backend='enum'))
     # mxint: nearest-even of 64x, clamped to [-128, 127]
